@@ -57,7 +57,7 @@ func init() {
 
 func cases(tier string, seed int64) []fw.Case {
 	r := rand.New(rand.NewSource(seed*7919 + 18))
-	n, steps := 40, 120
+	n, steps := 120, 120
 	if tier == "thorough" {
 		n, steps = 400, 170
 	}
